@@ -37,7 +37,7 @@ def incremental(pid, tier, replay):
 def ordering(pid, tier, replay):
     if replay:
         return engine.engine_replay(pid, replay)
-    fams = _fams([dict(fam="sched", K=8, CH=1), dict(fam="inc", K=3, CH=3), dict(fam="dyn", K=1, CH=3), dict(fam="pools", K=1, CH=1), dict(fam="restat", K=6, CH=3)],
+    fams = _fams([dict(fam="sched", K=8, CH=1), dict(fam="inc", K=3, CH=3), dict(fam="dyn", K=1, CH=3), dict(fam="pools", K=1, CH=1), dict(fam="restat", K=6, CH=3), dict(fam="twin", K=1, CH=1)],
                  [dict(fam="sched", K=81, CH=1), dict(fam="inc", K=30, CH=10), dict(fam="dyn", K=1, CH=30), dict(fam="pools", K=8, CH=1), dict(fam="rand", K=100, CH=4)], tier)
     q = tier == "quick"
     design = dict(K=1 if q else 3, consts={"MaxInv": 1 if q else 2, "MaxEnv": 1, "MaxClock": 40, "Js": "{1, 2, 3}", "Ks": "{1, 0}", "Crashes": "FALSE", "Toks": "{99}"},
@@ -482,7 +482,25 @@ def limits(pid, tier, replay):
     # exit) and NoIdle, liveness Termination under FairSpec
     design = dict(K=2 if q else 8, consts={"MaxInv": 1, "MaxEnv": 0, "MaxClock": 80, "Js": "{1, 2, 3}", "Ks": "{1, 2, 0}", "Crashes": "FALSE", "Toks": "{99, 0, 2}" if q else "{99, 0, 1, 2, 3}"},
                   invariants=["Limits", "NoIdle"], properties=["Termination"], timeout=300 if q else 3000, fam="mcpools", workers=8)
-    return engine.engine_check(pid, fams, tier, maxruns=24 if tier == "quick" else 400, design=design, impl=True)
+    def teardown(s):
+        """Real binary, jobserver, a build torn down while finished commands are not yet reaped: the dyndep file produced during
+        the build is invalid, all running commands complete in one poll round."""
+        if not s.get("ddbad") or "dd" in s["srcs"]:
+            return None
+        s["hist"] = [dict(s["hist"][0], tok=3, burst=True)]
+        return s
+    def interrupted_by_command(s):
+        """Real binary, jobserver: a command ends with status 130, which ninja takes for a user interrupt."""
+        h0 = s["hist"][0]
+        if h0.get("tok", -1) < 1 or not h0.get("fail") or any(st.get("badrspdir") for st in s["stmts"]):
+            return None
+        for f in h0["fail"]:
+            f["code"] = 130
+        s["hist"] = [h0]
+        return s
+    h2 = dict(fams=[dict(fam="ddvar", spec="Dyndep", K=0, CH=0, mut=teardown), dict(fam="jobs", K=2, CH=1, mut=interrupted_by_command)],
+              limit=60 if q else 300, maxruns=2)
+    return engine.engine_check(pid, fams, tier, maxruns=24 if tier == "quick" else 400, design=design, impl=True, h2=h2)
 
 
 @reg("C07")
